@@ -60,8 +60,13 @@ JudgeOwner(B) ==
            \* the shape the joined fiber reports still contains its coordinates (a fiber that declared a larger shape than the tensor keeps its room)
            <<"P:C14:coord-in-shape", B.maxcoord < B.after_shape>> >>)
 
+JudgeCtor(B) ==
+  Fails(<< <<"P:C14:coord-in-shape", \A k \in 1..Len(B.fibers) : InShape(B.fibers[k])>>,
+           <<"P:C14:coord-in-active", \A k \in 1..Len(B.fibers) : FiberOK(B.fibers[k])>>,
+           <<"P:C14:active-iter-equals-occupancy", \A k \in 1..Len(B.fibers) : B.fibers[k].iteract = B.fibers[k].iterocc>> >>)
+
 Judge(B) == IF B.exc # "ok" THEN <<"P:C14:no-exception">>
-            ELSE CASE B.kind = "transform" -> JudgeTransform(B) [] B.kind = "lazy" -> JudgeLazy(B) [] B.kind = "owner" -> JudgeOwner(B)
+            ELSE CASE B.kind = "ctor" -> JudgeCtor(B) [] B.kind = "transform" -> JudgeTransform(B) [] B.kind = "lazy" -> JudgeLazy(B) [] B.kind = "owner" -> JudgeOwner(B)
 Init == i \in 1..Len(Log) /\ done = FALSE
 Next == ~done /\ done' = TRUE /\ UNCHANGED i
         /\ LET f == Judge(Log[i]) IN PrintT(ToJson([tid |-> Log[i].tid, fails |-> [k \in 1..Len(f) |-> <<1, f[k]>>], n |-> 1]))
